@@ -191,6 +191,23 @@ theorem canonicalize_protocol_is_standard_partial (idna : Idna) (L : Nat) (v : B
     canonicalizeProtocol idna L v = (Spec.Pattern.protocolUrl idna (PC.protocolInput v)).map (·.scheme) :=
   PC.protocol_eq idna L v hne hslow
 
+open AdaVerif.Model.PatternCanon AdaVerif.Lemmas in
+/-- the helpers around the callbacks: `escape_pattern_string`, `escape_regexp_string` (over the regenerated tables),
+    `process_base_url_string`, `is_ipv6_address`, `is_absolute_pathname` are the Standard's "escape a pattern string",
+    "escape a regexp string", "process a base URL string", "hostname pattern is an IPv6 address", "is an absolute pathname" -/
+theorem pattern_helpers_are_standard (v : Bytes) (flag : Bool) :
+    escapePatternString v = Spec.Pattern.escapePatternString v ∧
+    escapeRegexpString v = Spec.Pattern.escapeRegexpString v ∧
+    processBaseUrlString v flag = Spec.Pattern.processBaseUrlString v flag ∧
+    isIpv6Address v = Spec.Pattern.isIpv6Address v ∧
+    isAbsolutePathname v flag = Spec.Pattern.isAbsolutePathname v flag :=
+  ⟨PC.escapePattern_eq v, PC.escapeRegexp_eq v, PC.processBase_eq v flag, PC.isIpv6Address_eq v, PC.isAbsolutePathname_eq v flag⟩
+
+example : AdaVerif.Model.PatternCanon.escapePatternString (ofStr "a+b:c") = ofStr "a\\+b\\:c" ∧
+    AdaVerif.Model.PatternCanon.isIpv6Address (ofStr "{[::1]}") = true ∧
+    AdaVerif.Model.PatternCanon.isAbsolutePathname (ofStr "{/a}") false = true ∧
+    AdaVerif.Model.PatternCanon.isAbsolutePathname (ofStr "{/a}") true = false := by decide +kernel
+
 /-- the two dummy URLs as the parser model leaves them (kernel-evaluated), and the model under a limit that excludes them -/
 example : AdaVerif.Model.ParseAgg.parseNoBaseA C10.asciiIdna AdaVerif.Model.PatternCanon.fakeText = some AdaVerif.Model.PatternCanon.fakeUrl ∧
     AdaVerif.Model.ParseAgg.parseNoBaseA C10.asciiIdna AdaVerif.Model.PatternCanon.dummyText = some AdaVerif.Model.PatternCanon.dummyUrl := by
